@@ -220,6 +220,10 @@ def build_harness(name, harness_srcs, repo_srcs, extra_flags=(), shim="shim_time
     d = os.path.join(CACHE, "bin", key)
     exe = os.path.join(d, name)
     if os.path.exists(exe):
+        try:
+            os.utime(d, None)       # in use: keep it away from the pruning of old cache entries
+        except OSError:
+            pass
         return exe
     os.makedirs(os.path.join(CACHE, "bin"), exist_ok=True)
     with open(os.path.join(CACHE, "bin", "build.lock"), "w") as lk:
